@@ -147,6 +147,9 @@ fn c09_obscured() -> R {
     let sig_digests: Vec<D> = e.assertions_with_predicate(known_values::SIGNED).iter().map(dg).collect();
     let ps = positions(&e);
     let cand: Vec<&Pos> = ps.iter().filter(|p| !p.path.is_empty() && !sig_digests.iter().any(|d| ps.iter().any(|q| q.d == *d && p.path.starts_with(&q.path)))).collect();
+    // ... and the 'signed' predicate of a signature assertion itself (lookups match predicates by digest)
+    let sig_preds: Vec<&Pos> = ps.iter().filter(|p| p.edge == EdgeType::Predicate && p.d == dg(&Envelope::new(known_values::SIGNED)) && p.path.len() == 2).collect();
+    let mut cand = cand; cand.extend(sig_preds);
     let c = cand[choice(cand.len())];
     let how = choice(3);
     rt::assume(!(how == 2 && matches!(c.kind, Kind::Elided | Kind::Encrypted)))?;
@@ -280,7 +283,10 @@ fn c10_recipients() -> R {
     };
     ensure!(dg(&x.subject()) == dg(&e.subject()), "encrypted subject has another digest", "");
     ensure!(kind(&x.subject()) == Kind::Encrypted, "subject not encrypted", "");
-    if form == 0 { ensure!(x.assertions().len() == e.assertions().len() + list.len(), "one hasRecipient assertion per listed recipient expected", "{} assertions for {:?}", x.assertions().len(), list); }
+    // an obscured assertion sitting among the hasRecipient assertions (wherever the hash sorts it) changes nothing
+    let with_elided = flag();
+    let x = if with_elided { must!(x.add_assertion_envelope(build(&el(a(l(450), l(451))))), "add of an elided assertion refused") } else { x };
+    if form == 0 { ensure!(x.assertions().len() == e.assertions().len() + list.len() + with_elided as usize, "one hasRecipient assertion per listed recipient expected", "{} assertions for {:?}", x.assertions().len(), list); }
     if let Err(m) = well_formed(&x) { return rt::viol("recipient-encrypted envelope not canonical", m); }
     for (i, key) in pool.iter().enumerate() {
         op("decrypt_subject_to_recipient");
@@ -292,6 +298,7 @@ fn c10_recipients() -> R {
                 // removing the hasRecipient assertions gives back the original
                 let mut back = d.clone();
                 for a in d.assertions_with_predicate(known_values::HAS_RECIPIENT) { back = back.remove_assertion(a); }
+                if with_elided { back = back.remove_assertion(build(&el(a(l(450), l(451))))); }
                 ensure!(bytes(&back) == before, "decrypted envelope minus recipients differs from the original", "recipient {}", i);
             }
         } else {
